@@ -8,7 +8,7 @@ package ref
 // the statement on every one of them:
 //
 //	message or error     - the call returns (panics are caught per element, verifmc.Guard)
-//	never hangs          - watchdog (verifmc.WithWatchdog, 20 s without progress on one element)
+//	never hangs          - watchdog (20 s polls; an input that has not returned after 120 s is a hang)
 //	memory ~ length      - runtime.MemStats.TotalAlloc delta, measured single-threaded, minimum of two
 //	                       runs, bound 64*len(input)+256 KiB
 //	re-encode equality   - a successfully decoded message m is encoded again, decoded again and the
@@ -60,7 +60,8 @@ type C33Config struct {
 }
 
 const (
-	c33Watchdog   = 20 * time.Second
+	c33Watchdog   = 20 * time.Second  // no progress on one input for this long = suspected hang ...
+	c33HangAfter  = 120 * time.Second // ... reported as a hang when it still has not returned after this long
 	c33AllocSlack = 256 << 10
 	c33AllocPerB  = 64
 )
@@ -505,7 +506,7 @@ func C33Rule(cfg C33Config) string {
 func C33Assumptions() []string {
 	return []string{
 		"allocation is read from runtime.MemStats.TotalAlloc with no other goroutine of the harness running; bound 64*len+256 KiB, minimum of two runs",
-		"a hang is 20 s without progress on one input (normal cost: microseconds)",
+		"a hang is one input that has not returned after 120 s (watchdog polls every 20 s; normal cost: microseconds)",
 		"equality of messages: every field, unexported ones included, nil and empty slices identified, Header.hash cache ignored",
 	}
 }
@@ -554,7 +555,7 @@ func C33Run(r *verifmc.Report, decs []C33Decoder, cfg C33Config) (rejected []str
 	reportHang := func(in *c33Input) {
 		atomic.StoreInt32(&hung[in.dec], 1)
 		r.Outcome(decs[in.dec].Name + ":hang")
-		r.Violate(decs[in.dec].Name+":hang", fmt.Sprintf("%s does not return within %s on input %s", decs[in.dec].Name, c33Watchdog, c33Short(in.data)),
+		r.Violate(decs[in.dec].Name+":hang", fmt.Sprintf("%s does not return within %s on input %s", decs[in.dec].Name, c33HangAfter, c33Short(in.data)),
 			map[string]any{"decoder": decs[in.dec].Name, "input_hex": verifmc.Hex(in.data), "derivation": in.label})
 	}
 
@@ -591,7 +592,7 @@ func C33Run(r *verifmc.Report, decs []C33Decoder, cfg C33Config) (rejected []str
 				evs[i-lo] = c33EvalOne(&decs[ins[i-lo].dec], ins[i-lo].data)
 			}
 		}()
-		last := int64(-1)
+		last, stuck := int64(-1), time.Duration(0)
 		tick := time.NewTimer(c33Watchdog)
 		defer tick.Stop()
 	wait:
@@ -602,6 +603,14 @@ func C33Run(r *verifmc.Report, decs []C33Decoder, cfg C33Config) (rejected []str
 			case <-tick.C:
 				now := atomic.LoadInt64(&cur)
 				if now == last {
+					stuck += c33Watchdog
+				} else {
+					stuck = 0
+				}
+				if now == last && stuck < c33HangAfter-c33Watchdog {
+					r.Outcome("watchdog:no-progress-for-20s-on-one-input(waiting)")
+				}
+				if now == last && stuck >= c33HangAfter-c33Watchdog {
 					in := sp.at(int(now))
 					reportHang(&in)
 					r.Capped("a decoder hung; the rest of its chunk was abandoned (goroutine leaked)")
@@ -648,7 +657,7 @@ func C33Run(r *verifmc.Report, decs []C33Decoder, cfg C33Config) (rejected []str
 			continue
 		}
 		var ev c33Eval
-		fin, pm := verifmc.WithWatchdog(c33Watchdog, func() { ev = c33EvalOne(&decs[in.dec], in.data) })
+		fin, pm := verifmc.WithWatchdog(c33HangAfter, func() { ev = c33EvalOne(&decs[in.dec], in.data) })
 		if !fin {
 			reportHang(in)
 			continue
